@@ -131,8 +131,12 @@ func (l *inProcessTransportListener) Close() error {
 	l.closedMu.Lock()
 	defer l.closedMu.Unlock()
 	delete(inProcListeners, l.addr)
-	l.closed = true
-	l.done <- true
+	if !l.closed {
+		l.closed = true
+		// Closed, not sent to: every pending Accept and every connection attempt that is
+		// still waiting to be accepted has to see it.
+		close(l.done)
+	}
 	return nil
 }
 
@@ -180,7 +184,12 @@ func (l *inProcessTransportListener) newClient(addr InProcessAddr, bufferSize in
 	// Create transport pair
 	client, server := newInProcessTransportPair(addr, bufferSize)
 	go func() {
-		l.transports <- server
+		select {
+		case l.transports <- server:
+		case <-l.done:
+			// The listener was closed before the connection was accepted
+			_ = server.Close()
+		}
 	}()
 	return client
 }
